@@ -610,7 +610,7 @@ fn gen_own(rng: &mut Rng, tier: Tier, emit: &mut dyn FnMut(Vec<Tok>)) {
         }
     }
     // 3. random: layouts, addresses, counts (incl. 2^64-1) x endpoints x scripts
-    let nrand = if quick { 10_000 } else { 300_000 };
+    let nrand = if quick { 20_000 } else { 300_000 };
     for _ in 0..nrand {
         let op = rng.below(4);
         let ek = if op <= 1 { *rng.pick(&readers) } else { *rng.pick(&writers) };
